@@ -219,7 +219,10 @@ def bipartite_graph_embed(A, mean_photon_per_mode=1.0, rtol=1e-05, atol=1e-08):
     scale = adj_scaling(B, 2 * n * mean_photon_per_mode)
     A = scale * A
 
-    if np.allclose(A, A.T, rtol=rtol, atol=atol):
+    # the Takagi branch needs a matrix that takagi itself accepts as symmetric
+    # (|A - A^T| < atol); anything else, including almost symmetric matrices,
+    # is a valid bipartite adjacency matrix and goes through the SVD
+    if np.allclose(A, A.T, rtol=rtol, atol=atol) and np.linalg.norm(A - A.T) < atol:
         s, u = takagi(A, tol=atol)
         v = u
     else:
